@@ -6,7 +6,7 @@ from typing import Dict, List, Optional, Tuple
 
 from ..aggfacts import SPEC, compare_with_spec, facts_of
 from ..astutil import Defs
-from ..core import AnalysisError, attr_chain, kwarg, short, walk_no_nested, walk_stmts
+from ..core import AnalysisError, attr_chain, cshort, kwarg, short, walk_no_nested, walk_stmts
 from ..grouping import BUILTINS, GroupFacts, vector_reduction_facts
 from .joinrules import _canon, determinism_of_function
 
@@ -85,8 +85,8 @@ def group_value_flow(ctx, gf: GroupFacts, rule: str) -> None:
             lp = loops[0]
             rows = lp.target.elts[1].id if isinstance(lp.target, ast.Tuple) and len(lp.target.elts) == 2 else None
             texts = [short(s, 200) for s in lp.body]
-            gather = f"[{data[0]}[i] for i in {rows}]"
-            vals = [s.targets[0].id for s in lp.body if isinstance(s, ast.Assign) and short(s.value) == gather]
+            gather = f"[{data[0]}[_0] for _0 in {rows}]"
+            vals = [s.targets[0].id for s in lp.body if isinstance(s, ast.Assign) and cshort(s.value) == gather]
             calls = [n for n in walk_no_nested(lp) if isinstance(n, ast.Call) and short(n.func) == func]
             if not vals:
                 problems.append(f"the group's values are not gathered as `{gather}` (all rows of the group, in row order, None included)")
@@ -98,7 +98,7 @@ def group_value_flow(ctx, gf: GroupFacts, rule: str) -> None:
             apps = [n for n in walk_no_nested(lp) if isinstance(n, ast.Call) and isinstance(n.func, ast.Attribute) and n.func.attr == "append"]
             if len(apps) != 1:
                 problems.append("not exactly one result per group")
-        fin = [n for n in walk_no_nested(h.node) if isinstance(n, ast.Call) and short(n.func) == "result_cols.append"]
+        fin = [n for n in walk_no_nested(h.node) if isinstance(n, ast.Call) and short(n.func) == f"{gf.result_list}.append"]
         if len(fin) != 1 or not (isinstance(fin[0].args[0], ast.Call) and short(fin[0].args[0].func) == "Vector"):
             problems.append("aggregate_col does not append exactly one result column")
         else:
@@ -124,8 +124,8 @@ def group_value_flow(ctx, gf: GroupFacts, rule: str) -> None:
         else:
             lp = loops[0]
             key, rows = (lp.target.elts[0].id, lp.target.elts[1].id) if isinstance(lp.target, ast.Tuple) else (None, None)
-            gather = f"[{data[0]}[i] for i in {rows}]"
-            vals = [s.targets[0].id for s in lp.body if isinstance(s, ast.Assign) and short(s.value) == gather]
+            gather = f"[{data[0]}[_0] for _0 in {rows}]"
+            vals = [s.targets[0].id for s in lp.body if isinstance(s, ast.Assign) and cshort(s.value) == gather]
             outv = short(rets[0].value)
             st = [s for s in lp.body if isinstance(s, ast.Assign) and isinstance(s.targets[0], ast.Subscript)
                   and short(s.targets[0].value) == outv]
@@ -174,8 +174,8 @@ def apply_block(ctx, gf: GroupFacts, rule: str) -> None:
                 if not data:
                     problems.append("the apply column's storage is not read")
                 else:
-                    txt = " ".join(short(s, 300) for s in lp.body)
-                    gather_call = f"{fn}([{data[0]}[i] for i in "
+                    txt = " ".join(cshort(s) for s in lp.body)
+                    gather_call = f"{fn}([{data[0]}[_"
                     inline = gather_call in txt
                     two_step = any(isinstance(s, ast.For) and short(s.iter) == gi for s in lp.body)
                     if not (inline or two_step):
@@ -183,8 +183,8 @@ def apply_block(ctx, gf: GroupFacts, rule: str) -> None:
                     if two_step:
                         il = [s for s in lp.body if isinstance(s, ast.For) and short(s.iter) == gi][0]
                         rows = il.target.elts[1].id
-                        g = f"[{data[0]}[i] for i in {rows}]"
-                        vals = [s.targets[0].id for s in il.body if isinstance(s, ast.Assign) and short(s.value) == g]
+                        g = f"[{data[0]}[_0] for _0 in {rows}]"
+                        vals = [s.targets[0].id for s in il.body if isinstance(s, ast.Assign) and cshort(s.value) == g]
                         calls = [n for n in walk_no_nested(il) if isinstance(n, ast.Call) and short(n.func) == fn]
                         if not vals or len(calls) != 1 or short(calls[0].args[0]) != vals[0]:
                             problems.append(f"the user function must be called once per group on `{g}` (None included, row order)")
@@ -193,7 +193,7 @@ def apply_block(ctx, gf: GroupFacts, rule: str) -> None:
                         if not (comps and short(comps[0].generators[0].iter) == gi and not comps[0].generators[0].ifs):
                             problems.append(f"group values for apply are not computed for every entry of `{gi}`")
                 # name
-                apps = [n for n in walk_no_nested(lp) if isinstance(n, ast.Call) and short(n.func) == "result_cols.append"]
+                apps = [n for n in walk_no_nested(lp) if isinstance(n, ast.Call) and short(n.func) == f"{gf.result_list}.append"]
                 if len(apps) != 1:
                     problems.append("not exactly one output column per apply entry")
                 else:
@@ -213,7 +213,7 @@ def key_columns(ctx, gf: GroupFacts, rule: str) -> None:
         raise AnalysisError(gf.partition_error)
     gi = gf.group_items[0] if gf.group_items else "?"
     loops = [s for s in gf.body if isinstance(s, ast.For) and (short(s.iter) in (over, f"enumerate({over})"))
-             and any(isinstance(n, ast.Call) and short(n.func) == "result_cols.append" for n in walk_no_nested(s))]
+             and any(isinstance(n, ast.Call) and short(n.func) == f"{gf.result_list}.append" for n in walk_no_nested(s))]
     if len(loops) != 1:
         problems.append("key-column loop not found")
     else:
@@ -223,7 +223,7 @@ def key_columns(ctx, gf: GroupFacts, rule: str) -> None:
         firsts = [gf.body.index(b.guard) for b in gf.blocks.values()] + ([gf.body.index(gf.apply_block)] if gf.apply_block is not None else [])
         if firsts and pos > min(firsts):
             problems.append("key columns are appended after an aggregate column")
-        app = [n for n in walk_no_nested(lp) if isinstance(n, ast.Call) and short(n.func) == "result_cols.append"][0]
+        app = [n for n in walk_no_nested(lp) if isinstance(n, ast.Call) and short(n.func) == f"{gf.result_list}.append"][0]
         v = app.args[0]
         if gf.which == "aggregate":
             tg = [n.id for n in ast.walk(lp.target) if isinstance(n, ast.Name)]
@@ -234,7 +234,7 @@ def key_columns(ctx, gf: GroupFacts, rule: str) -> None:
             for s in lp.body:
                 if isinstance(s, ast.Assign) and isinstance(dat, ast.Name) and short(s.targets[0]) == dat.id:
                     dv = s.value
-            if dv is None or short(dv) != f"[key[{idx}] for key, _ in {gi}]":
+            if dv is None or cshort(dv) != f"[_0[{idx}] for _0, _1 in {gi}]":
                 problems.append(f"key column {idx} holds `{short(dv) if dv is not None else short(dat) if dat is not None else '?'}`, "
                                 f"expected [key[{idx}] for key, _ in {gi}] (one value per group, in group order)")
         else:
@@ -271,8 +271,8 @@ def expansion(ctx, gf: GroupFacts, rule: str) -> None:
     gm = h.params[0]
     rets = [s for s in walk_stmts(h.body) if isinstance(s, ast.Return)]
     rk = gf.row_keys[0] if gf.row_keys else "?"
-    want = [f"[{gm}[{rk}[i]] for i in range({n})]" for n in gf.nrows]
-    ok = len(rets) == 1 and short(rets[0].value) in want and len([s for s in h.body if not (isinstance(s, ast.Expr))]) == 1
+    want = [f"[{gm}[{rk}[_0]] for _0 in range({n})]" for n in gf.nrows]
+    ok = len(rets) == 1 and cshort(rets[0].value) in want and len([s for s in h.body if not (isinstance(s, ast.Expr))]) == 1
     ctx.ob(rule, h, "expand_to_rows", ok, f"row i receives group_map[row_keys[i]] for i in range(nrows)", h.node,
            message=f"expand_to_rows returns `{short(rets[0].value) if rets else '?'}`, expected {want[0] if want else '?'}: every row, in row "
                    f"order, gets the value of the group it was partitioned into")
